@@ -3,8 +3,11 @@
 Circuit = {"n": <qubits>, "ops": [op, ...]} with op one of
     ["h"|"x"|"y"|"z", q]            ["rx"|"ry"|"rz"|"p", q, theta]      ["u", q, theta, phi, lam]
     ["cz"|"cx", a, b]  (cx: a = control, b = target)
-    ["measure", q, c]               (projective, qubit q -> classical bit c, qubit keeps its collapsed state)
-    ["if", c, v, [op, ...]]         (ops applied iff classical bit c currently holds v; an unwritten bit reads 0)
+    ["measure", q, c]               (projective, qubit q -> classical bit c, qubit keeps its collapsed state;
+                                     a classical bit may be written any number of times, also by measurements of
+                                     different qubits: every write OVERWRITES the bit -- Qiskit / OpenQASM semantics)
+    ["if", c, v, [op, ...]]         (ops applied iff classical bit c currently holds v, i.e. the value written by the
+                                     LATEST preceding measurement into c; an unwritten bit reads 0)
     ["ifelse", c, v, [op...], [op...]]
 Qubit q is bit q of the basis-state index (Qiskit's little-endian convention), so the
 matrices can be compared entry by entry with qiskit.quantum_info.Operator.
@@ -188,7 +191,41 @@ def selftest(angles=(math.pi / 2, 0.37, -1.1)):
     exp = {((None, 0), (1,)): 0.5, ((None, 1), (0,)): 0.25, ((None, 1), (1,)): 0.25}
     if set(law) != set(exp) or any(abs(law[k] - exp[k]) > 1e-14 for k in exp):
         raise AssertionError("qubitref if/else semantics: %r" % (law,))
-    return count + 2
+    # a classical bit written twice holds the LATEST value (a later measurement overwrites it), at the time the
+    # condition is evaluated: q0 = |0>, q1 = |1>, q2 = |0>
+    for first, second, expect_bit in ((0, 1, 1), (1, 0, 0)):
+        c = {"n": 3, "ops": [["x", 1], ["measure", first, 0], ["measure", second, 0], ["if", 0, 1, [["x", 2]]]]}
+        law = joint_law(c, [2])
+        exp = {((expect_bit, None, None), (expect_bit,)): 1.0}
+        if set(law) != set(exp) or any(abs(law[k] - exp[k]) > 1e-14 for k in exp):
+            raise AssertionError("qubitref overwritten classical bit: %r" % (law,))
+    # ... and a condition BETWEEN the two writes sees the first value (1: x fires), the one after them the second (0: h does not)
+    c = {"n": 3, "ops": [["x", 0], ["measure", 0, 0], ["if", 0, 1, [["x", 2]]], ["measure", 1, 0], ["if", 0, 1, [["h", 2]]]]}
+    law = joint_law(c, [2])
+    exp = {((0, None, None), (1,)): 1.0}
+    if set(law) != set(exp) or any(abs(law[k] - exp[k]) > 1e-14 for k in exp):
+        raise AssertionError("qubitref condition between two writes of a classical bit: %r" % (law,))
+    # the overwrite itself against Qiskit's own BasicSimulator (it has no if_else, so measurements only): deterministic
+    # circuits, every preparation of (q0, q1) in {0,1}^2, both orders of the two writes into every classical bit
+    from qiskit.providers.basic_provider import BasicSimulator
+
+    sim = BasicSimulator()
+    extra = 0
+    for b0 in (0, 1):
+        for b1 in (0, 1):
+            for first, second in ((0, 1), (1, 0)):
+                for cl in range(3):
+                    c = {"n": 3, "ops": [["x", q] for q, b in ((0, b0), (1, b1)) if b] + [["measure", first, cl], ["measure", second, cl]]}
+                    counts = sim.run(to_qiskit(c), shots=3).result().get_counts()
+                    law = clbit_law(c)
+                    if len(counts) != 1 or len(law) != 1:
+                        raise AssertionError("qubitref overwrite self-test: non-deterministic %r %r" % (counts, law))
+                    (bits,) = law
+                    got = "".join(str(b or 0) for b in reversed(bits))  # qiskit prints clbit 0 rightmost
+                    if got != list(counts)[0].replace(" ", ""):
+                        raise AssertionError("qubitref overwritten classical bit differs from qiskit BasicSimulator: %r vs %r for %r" % (got, counts, c))
+                    extra += 1
+    return count + 5 + extra
 
 
 if __name__ == "__main__":
